@@ -186,7 +186,7 @@ func ModelPaths(p *Program, hs *HostSpec, o WalkOpts) (paths int64, diverges boo
 		for step := 0; step < o.MaxSteps; step++ {
 			switch ob.K {
 			case ODiverge:
-				if m.Jumps < m.MaxJumps {
+				if m.Diverged {
 					diverges = true
 				}
 				return
